@@ -50,6 +50,7 @@ def handlers : List (String × Handler) := [
   ("funnel", C16.handleFunnel),
   ("watcher", C16.handleWatcher),
   ("watcher-fatal", C16.handleFatal),
+  ("watcher-unsched", C16.handleUnsched),
   ("jsonpath", C18.handleJsonpath),
   ("mutate", C18.handleMutate)
 ]
